@@ -39,6 +39,7 @@ type Exec struct {
 	dead   bool // an op hung: goroutines of the tree may still be running
 	// Unsettled counts ops after which goroutines were still running when the wait gave up
 	Unsettled int
+	floor     int
 }
 
 func (e *Exec) close() {
@@ -49,7 +50,7 @@ func (e *Exec) close() {
 			e.env.Close()
 		}
 	}
-	e.env, e.sto, e.leaves, e.dead = nil, nil, nil, false
+	e.env, e.sto, e.leaves, e.dead, e.floor = nil, nil, nil, false, 0
 }
 
 // splitTree separates the schedules from the real-tree tokens: leaf order = order of appearance.
@@ -187,7 +188,14 @@ func (e *Exec) Do(w []string) string {
 	if trace {
 		println("op", w[0], w[len(w)-1])
 	}
+	// the baseline is the LOWEST goroutine count seen at an operation boundary of this tree: a count
+	// taken now may include a goroutine of an earlier operation that is about to end, and waiting only
+	// until the count is back there could return while a goroutine of this operation has yet to run
 	base := runtime.NumGoroutine()
+	if e.floor == 0 || base < e.floor {
+		e.floor = base
+	}
+	base = e.floor
 	out := watchdog(opTimeout, func() string { return c01.ExecOn(e.sto, w) })
 	if out == "hang" {
 		e.dead = true
@@ -208,6 +216,7 @@ func (e *Exec) settle(base int) {
 	for i := 0; runtime.NumGoroutine() > base; i++ {
 		if time.Now().After(deadline) {
 			e.Unsettled++
+			e.floor = runtime.NumGoroutine() // something stays: do not wait for it after every operation
 			return
 		}
 		if i < 50 {
